@@ -516,7 +516,7 @@ def _policy(F, ctx, node_name, side, pol, n_edges, n_answers):
 def fan(props=("C03", "C08", "C10"), n_src=2, n_out=1, n_items=2, w=1, blocking=True, src_blocking=True, in_kind="buffer", out_kind="buffer",
         in_cap=2, out_cap=1, in_sel="FIRST_AVAILABLE", out_sel="FIRST_AVAILABLE", sym=("iat", "pd"), per_item_pd=False, until=None,
         out_delay="sym", in_delay=0, delay_kind="callable", setup=0, twin=False, same_iat=False, stats=False, src_out_sel=0, iat_lo=0.5,
-        second_machine=False, conv_kw=None, T=None, sink_fanin=False):
+        second_machine=False, conv_kw=None, T=None, sink_fanin=False, two_stage=False):
     def fn(ctx):
         from factorysimpy.nodes.source import Source
         from factorysimpy.nodes.machine import Machine
@@ -588,6 +588,12 @@ def fan(props=("C03", "C08", "C10"), n_src=2, n_out=1, n_items=2, w=1, blocking=
             Tend = ctx.real("T", 0.25, T or 8)
         F.run(until=Tend)
         finish(F, Tend)
+        if two_stage and until == "sym":
+            # the statistics were read at T; the simulation is continued and they are read again at a later end time
+            T2 = Tend + ctx.real("T2gap", 0, 4)
+            F.run(until=T2)
+            finish(F, T2)
+            ctx.hit("two-stage-finalisation")
         ctx.log("recv", tuple(k.stats["num_item_received"] for k in sinks), "disc", m.stats["num_item_discarded"],
                 tuple(s.stats["num_item_discarded"] for s in srcs))
         ctx.hit("complete")
@@ -805,6 +811,21 @@ def c18_final(F, T):
             exp = integ / T
             if not (abs(val - exp) <= 1e-9):
                 F.soft(f"C18:time-averaged-occupancy-differs-from-integral-over-T@{cls}", {"reported": float(val), "expected": float(exp)})
+        # reading the statistic a second time for the same end time must not change it
+        try:
+            getattr(e, fin)(T)
+            val2 = e.stats[key]
+            qp2 = ctx.quot_parts(val2)
+            if qp is not None:
+                same = qp2 is not None and ctx.eq(qp2[1], qp[1]) and ctx.eq(qp2[0], qp[0])
+            else:
+                same = abs(val2 - val) <= 1e-9
+            if not same:
+                F.soft(f"C18:time-averaged-occupancy-changes-when-read-twice-for-the-same-end-time@{cls}", {})
+        except symx.PathStop:
+            raise
+        except Exception as ex:
+            F.soft(f"C18:{fin}-raised-{type(ex).__name__}-when-called-twice@{cls}", {"msg": str(ex)[:100]})
 
 
 # ---------------------------------------------------------------------------------------------
